@@ -6,6 +6,7 @@ Open Scope string_scope. Open Scope list_scope.
 Section Spec.
   Variable sha1 : list N -> list N.
   Variable sha256 : list N -> list N.
+  Variable b64 : string -> option (list N).
 
   (* a regular file with a recorded checksum matches it (an undecodable record
      cannot match) *)
@@ -20,7 +21,7 @@ Section Spec.
        of the data section (an empty or absent datahash records nothing),
      - every regular file agrees with its recorded checksum. *)
   Definition Chain (h : handle) (x : exp) : Prop :=
-    h_sum h = Some (sha1 (c_raw (x_ctl x))) /\
+    h_sum b64 h = Some (sha1 (c_raw (x_ctl x))) /\
     (forall dh, In dh (c_datahash (x_ctl x)) -> dh <> "" -> dh = hex (sha256 (d_raw (x_dat x)))) /\
     (forall f, In f (d_files (x_dat x)) -> file_ok f).
 
@@ -32,7 +33,7 @@ Section Spec.
     end.
 
   Definition control_ok_b (h : handle) (x : exp) : bool :=
-    option_eqb bytes_eqb (h_sum h) (Some (sha1 (c_raw (x_ctl x)))).
+    option_eqb bytes_eqb (h_sum b64 h) (Some (sha1 (c_raw (x_ctl x)))).
   Definition datahash_ok_b (x : exp) : bool :=
     forallb (fun dh => String.eqb dh "" || String.eqb dh (hex (sha256 (d_raw (x_dat x))))) (c_datahash (x_ctl x)).
   Definition files_ok_b (x : exp) : bool := forallb file_ok_b (d_files (x_dat x)).
